@@ -300,6 +300,7 @@ fn run_case(config: &str, ops: &str, conns: &str) -> String {
 
 fn main() {
     silence_panics();
+    install_logger(); // every log line of the library is evaluated and formatted, as under RUST_LOG=trace
     run_cases(|f, emit| match f[0] {
         // client <config> <ops> <connection scripts>
         "client" => {
